@@ -325,6 +325,7 @@ def text_of(workload):
 
 class C14(OptEngineBase):
     PROPERTY = "C14"
+    SWEEP_MENU = {"disk": ["eio_read"]}
     ENGINE_NAME = "simio"
     TIERS = {
         "quick": {"runs": 5000, "budget_s": 75, "chunk": 32},
